@@ -59,6 +59,19 @@ def contained(a, b):
         na = _native(a); return na is not None and na == _native(b)
     return gen.jeq(a, b)
 
+def losses(a, b, path=()):
+    """the deepest places (paths into `a`) at which `a` is not contained in `b`"""
+    if isinstance(a, dict) and isinstance(b, dict):
+        out = []
+        for k, x in a.items():
+            kb = k if k in b else next((k2 for k2 in b if _native(k) is not None and _native(k) == _native(k2)), None)
+            if kb is None: out.append(path + (k,))
+            else: out += losses(x, b[kb], path + (k,))
+        return out
+    if isinstance(a, list) and isinstance(b, list) and len(a) == len(b):
+        return [p for i, (x, y) in enumerate(zip(a, b)) for p in losses(x, y, path + (i,))]
+    return [] if contained(a, b) else [path]
+
 def f32_safe(v):
     """floats with at most 6 significant digits survive f32 and its shortest-representation printing exactly"""
     if isinstance(v, float): return v == float("%.6g" % v)
@@ -101,7 +114,7 @@ def _open_branch_shadows(doc, key, fuel=40):
             if k2 in ("properties", "patternProperties") and isinstance(v2, dict): work += list(v2.values())
     return False
 
-def attribute(findings, c, key, v, what):
+def attribute(findings, c, key, v, what, w=None):
     """mechanism predicates, evaluated on the part of the IR the failing definition can reach"""
     import irutil
     es = irutil.entries(c.dump)
@@ -149,13 +162,25 @@ def attribute(findings, c, key, v, what):
                 return fd
         if fd["id"] == "C03-variant-shared-inline-type" and what in ("not-contained", "not-fixed-point", "invalid"):
             from props import c05 as _c05
-            pairs = _c05.shared_variant_types(c.dump)
+            pairs = _c05.shared_variant_types(c.dump, only=reach)
             def hit2(x):
                 if isinstance(x, dict):
                     return any(tg in x and any(k in x for k in ks) for tg, ks in pairs) or any(hit2(y) for y in x.values())
                 if isinstance(x, list): return any(hit2(y) for y in x)
                 return False
-            if pairs and hit2(v): return fd
+            if pairs and what == "not-contained" and w is not None:
+                # every place at which data is lost lies under the shared member of an object of such a union
+                import gen as _g
+                def under(path):
+                    cur = v
+                    for t in path:
+                        if isinstance(cur, dict) and any(tg in cur and t in ks for tg, ks in pairs): return True
+                        try: cur = cur[t]
+                        except Exception: return False
+                    return False
+                ls = losses(_g.prune(v), _g.prune(w))
+                if ls and all(under(p) for p in ls): return fd
+            elif pairs and hit2(v): return fd
         if fd["id"] == "C03-anyof-flatten-shared-member" and what in ("not-contained", "not-fixed-point", "invalid"):
             # a struct of flattened Option<struct> members two of which declare a member of the same name
             for i in reach:
@@ -276,7 +301,7 @@ def run(ctx):
         except Exception: pass
         if m3.canon(json.dumps(w)) != m3.canon(json.dumps(w2)): probs.append("not-fixed-point")
         for what in probs:
-            fd = attribute(findings, c, key, v, what)
+            fd = attribute(findings, c, key, v, what, w)
             if fd: known_hit[fd["id"]] = known_hit.get(fd["id"], 0) + 1
             else: fails.append((c, key, v, w, w2, what))
     ctx.log("cases=%d compiled=%d rt requests=%d checked=%d rtok=%s declared=%s M3 disagreements=%d oracle failures=%d known=%s" %
